@@ -107,7 +107,7 @@ func roundHashFeatures(c *Check, f *ssa.Function) map[string]string {
 	// fold: the running hash lives either in a phi or (address taken by hash[:]) in a cell
 	var cell *ssa.Alloc
 	eachInstr(f, func(b *ssa.BasicBlock, ins ssa.Instruction) {
-		if a, ok := ins.(*ssa.Alloc); ok && a.Comment == "hash" {
+		if a, ok := ins.(*ssa.Alloc); ok && allocIs(a, "hash") {
 			cell = a
 		}
 	})
